@@ -4,6 +4,8 @@ package main
 import (
 	"bytes"
 	"fmt"
+	"runtime"
+	"sync"
 
 	gots "github.com/Comcast/gots/v2"
 	"github.com/Comcast/gots/v2/packet"
@@ -131,6 +133,50 @@ func run(c *mon.Ctx) {
 	})
 
 	// sections the library emits
+	// the checksum is a function of its argument whoever else is computing one at the same time: several
+	// goroutines, each with its own strings, each result compared with the reference
+	c.Floor("concurrent.calls", 20000)
+	c.Stream("concurrent-callers", c.N(4, 200), func(i int, r *gen.Rand) {
+		const G, N = 8, 1500
+		prev := runtime.GOMAXPROCS(4)
+		defer runtime.GOMAXPROCS(prev)
+		seeds := make([]uint64, G)
+		for g := range seeds {
+			seeds[g] = r.Uint64()
+		}
+		type miss struct {
+			in, got, want []byte
+		}
+		var mu sync.Mutex
+		var misses []miss
+		var wg sync.WaitGroup
+		for g := 0; g < G; g++ {
+			wg.Add(1)
+			go func(q *gen.Rand) {
+				defer wg.Done()
+				for k := 0; k < N; k++ {
+					in := q.Bytes(q.PickInt([]int{0, 1, 4, 16, 100, 183, 184, 1024, q.Intn(300)}))
+					got := gots.ComputeCRC(in)
+					want := ref.BE32(ref.CRC32MPEG2(in))
+					if !bytes.Equal(got, want) {
+						mu.Lock()
+						if len(misses) < 3 {
+							misses = append(misses, miss{in, append([]byte{}, got...), want})
+						}
+						mu.Unlock()
+					}
+				}
+			}(gen.New(seeds[g], uint64(g)))
+		}
+		wg.Wait()
+		c.Eval(G * N)
+		c.CountN("concurrent.calls", G*N)
+		for _, m := range misses {
+			c.Fail("crc:value-with-concurrent-callers", fmt.Sprintf("with %d goroutines computing checksums of their own strings at the same time, ComputeCRC of a %d-byte string returned %x, CRC-32/MPEG-2 is %x", G, len(m.in), m.got, m.want), wit{mon.Hex(m.in), mon.Hex(m.got), mon.Hex(m.want), "the interleaving is not reproducible; the sequential streams hold for the same inputs"})
+			break
+		}
+		c.Class("concurrent-callers")
+	})
 	c.Stream("emitted-scte35", c.N(2000, 1000000), func(i int, r *gen.Rand) {
 		s := scte35.CreateSCTE35()
 		s.SetTier(uint16(r.Intn(4096)))
@@ -233,7 +279,7 @@ func run(c *mon.Ctx) {
 		// reference-built PMTs of up to 1021 bytes, split over several packets, filtered to a subset
 		p := ref.GenPMT(r, 1+r.Intn(50))
 		sec := p.Section()
-		pay := append([]byte{0}, sec...)
+		pay := append(ref.PointerPrefix(r.PickInt([]int{0, 0, 1, 3, 40, r.Intn(150)})), sec...)
 		const pmtPID = 0x30
 		pk, _ := ref.Packetise(pmtPID, r.Intn(16), pay, ref.RandChunks(r, 1+len(pay)/60), r.Bool())
 		var in []*packet.Packet
